@@ -798,3 +798,125 @@ pub fn execute_c09_udp(plan: &Plan) -> Outcome {
         extra_cases,
     }
 }
+
+// ---------------------------------------------------------------- IPv6 datagram targets
+
+/// C02, "all target address kinds": a datagram for an IPv6 literal. One application, one echoing target bound to an
+/// IPv6 address; two datagrams. The datagrams must reach the target and the replies must come back labelled with it.
+pub fn gen_c02_v6(seed: u64, _thorough: bool) -> Plan {
+    let mut g = Gen::new(seed, 26);
+    let cells = udp_cells();
+    let (proto, cipher, transport, n_users) = cells[seed as usize % cells.len()];
+    let config = udp_config(&mut g, proto, cipher, transport, n_users);
+    Plan {
+        property: "C02".into(),
+        scenario: "udp-ipv6-target".into(),
+        seed,
+        net_seed: g.next(),
+        config,
+        knobs: KnobsPlan::simple().for_transport(transport),
+        flows: vec![],
+        extra: serde_json::json!({ "port": g.range(1024, 60000), "sizes": [g.range(9, 300), g.range(9, 1200)], "host": g.range(1, 0xfffe) }),
+    }
+}
+
+pub fn execute_c02_v6(plan: &Plan) -> Outcome {
+    use std::net::Ipv6Addr;
+    let port = plan.extra["port"].as_u64().unwrap_or(5300) as u16;
+    let sizes: Vec<usize> = serde_json::from_value(plan.extra["sizes"].clone()).unwrap_or_else(|_| vec![20, 40]);
+    let host = plan.extra["host"].as_u64().unwrap_or(1) as u16;
+    let ip6 = Ipv6Addr::new(0xfd00, 0, 0, 0, 0, 0, 0x26, host);
+    let taddr = SocketAddr::new(IpAddr::V6(ip6), port);
+    let cell = plan.config.label();
+    let out = rt::run_sim(plan.seed, plan.net_seed, plan.knobs.to_knobs(), || async {
+        let mains = match start_system(&plan.config, "127.0.0.1", SERVER_PORT).await {
+            Ok(m) => m,
+            Err(e) => return (Some(e), 0usize, Vec::new()),
+        };
+        if !settle(|| udp_bound(CLIENT_PORT)).await {
+            return (Some("the client's local datagram socket is not bound".to_owned()), 0, Vec::new());
+        }
+        let got = Arc::new(Mutex::new(0usize));
+        let g2 = got.clone();
+        let _t = spawn_scoped(async move {
+            let Ok(u) = UdpSocket::bind(taddr).await else { return };
+            let mut buf = vec![0u8; 65536];
+            loop {
+                let Ok((n, from)) = u.recv_from(&mut buf).await else { return };
+                *g2.lock().unwrap() += 1;
+                let mut r = b"v6-reply:".to_vec();
+                r.extend_from_slice(&buf[..n.min(16)]);
+                let _ = u.send_to(&r, from).await;
+            }
+        });
+        tokio::task::yield_now().await;
+        let app = UdpSocket::bind(SocketAddr::new(IpAddr::V4(Ipv4Addr::LOCALHOST), 0)).await.unwrap();
+        let mut replies: Vec<Vec<u8>> = Vec::new();
+        let mut buf = vec![0u8; 65536];
+        for (i, s) in sizes.iter().enumerate() {
+            let mut d = vec![0u8, 0, 0, 4];
+            d.extend_from_slice(&ip6.octets());
+            d.extend_from_slice(&port.to_be_bytes());
+            d.extend(dgram_payload(0, 0, i as u32 + 1, 0, *s));
+            // (repeated once: the first datagram through a stream carrier may be lost while the carrier is made)
+            for _ in 0..2 {
+                let _ = app.send_to(&d, SocketAddr::new(IpAddr::V4(Ipv4Addr::LOCALHOST), CLIENT_PORT)).await;
+                if let Ok(Ok((n, _))) = tokio::time::timeout(Duration::from_secs(3), app.recv_from(&mut buf)).await {
+                    replies.push(buf[..n].to_vec());
+                    break;
+                }
+            }
+        }
+        let at_target = *got.lock().unwrap();
+        drop(mains);
+        (None, at_target, replies)
+    });
+    let (startup, at_target, replies) = out.result.clone();
+    let mut v = Vec::new();
+    if let Some(e) = startup {
+        v.push(Violation::new("C02", format!("C02/ipv6-startup/{cell}"), e));
+    } else {
+        if at_target == 0 {
+            v.push(Violation::new("C02", format!("C02/ipv6-target-never-reached/{cell}"), format!("{} datagrams for [{ip6}]:{port} were sent (each twice); none reached the target (address-family errors at the simulated sockets: {})", sizes.len(), out.world.stats.udp_wrong_family)));
+        } else if replies.len() < sizes.len() {
+            v.push(Violation::new("C02", format!("C02/ipv6-reply-lost/{cell}"), format!("the target [{ip6}]:{port} received {at_target} datagrams and answered each, {} of {} replies came back", replies.len(), sizes.len())));
+        }
+        for r in &replies {
+            match socks5_udp_unwrap(r) {
+                Some((h, p, data)) if data.starts_with(b"v6-reply:") => {
+                    let labelled_ok = p == port && h.parse::<Ipv6Addr>().ok() == Some(ip6);
+                    // (VMess / Trojan carry no source address: the requested literal comes back as the label, in whatever notation)
+                    if !labelled_ok {
+                        v.push(Violation::new("C02", format!("C02/ipv6-reply-mislabelled/{cell}"), format!("a reply of [{ip6}]:{port} came back labelled {h}:{p}")));
+                        break;
+                    }
+                }
+                _ => {
+                    v.push(Violation::new("C02", format!("C02/ipv6-reply-malformed/{cell}"), "a reply came back that is not the target's datagram under a SOCKS5-UDP header".into()));
+                    break;
+                }
+            }
+        }
+    }
+    for p in &out.panics {
+        v.push(Violation::new("C02", format!("C02/panic/{cell}/ipv6/{}", p.frame), format!("panic in node {}: {} at {}", p.node, p.message, p.location)));
+    }
+    let mut probes = BTreeMap::new();
+    probes.insert("ipv6_target_runs".to_owned(), 1);
+    probes.insert("ipv6_datagrams_at_target".to_owned(), at_target as u64);
+    Outcome {
+        violations: v,
+        ev_hash: out.world.ev_hash,
+        ev_count: out.world.ev_count,
+        poll_hash: out.poll_hash,
+        polls: out.polls,
+        sim_ns: out.sim_ns,
+        stats: crate::report::world_stats(&out.world),
+        nontrivial: true,
+        case_hash: out.poll_hash ^ plan.seed.wrapping_mul(0x9E3779B97F4A7C15),
+        probes,
+        panics: out.panics,
+        extra_evaluations: 0,
+        extra_cases: Vec::new(),
+    }
+}
